@@ -8,16 +8,18 @@ import subprocess
 from core import REPO, VERIF, run_tlc, MachineryError
 
 
-def record(work, codec=False):
+def record(work, codec=False, filters=False, only=None):
     out = work.path('rec.json')
     env = dict(os.environ)
     if codec:
         env['VERIF_REC_CODEC'] = '1'
+    if filters:
+        env['VERIF_REC_FILTER'] = '1'
     env['VERIF_REC_OUT'] = out
     env['PYTHONPATH'] = os.path.join(VERIF, 'lib') + os.pathsep + REPO
     env.pop('HSZINC_VERIF', None)
     p = subprocess.run(['/venv/bin/python', '-m', 'pytest', '-q', '-p', 'no:cacheprovider', '-p', 'recplugin',
-                        '--timeout=900', '-x', '--deselect', 'tests/test_parser.py::test_oddball_version'],
+                        '--timeout=900', '-x', '--deselect', 'tests/test_parser.py::test_oddball_version'] + (only or []),
                        cwd=REPO, env=env, stdout=subprocess.PIPE, stderr=subprocess.STDOUT)
     if not os.path.exists(out):
         raise MachineryError('recording run produced no trace file:\n%s' % p.stdout.decode('utf-8', 'replace')[-1500:])
